@@ -70,6 +70,46 @@ example :
     maxFrameSize = 16383 ∧ Consts.MSS_MAX_LEN_BYTES = 2 := by
   refine ⟨by simp [wire, frameBytes, uviEncode_lt], by decide, by decide, by decide, by decide⟩
 
+/-- **Framing makes progress.** The liveness complement of `framing_transparent`. The carrier
+"eventually delivers every byte": the schedule contains at least as many non-`Pending` choices (each
+delivers at least one byte) as the frames have bytes on the wire, `Pending`s interleaved at will;
+the reader polls again after every `Pending` (`fuel` at least the length of the schedule). Then
+every frame is returned, the reader is back in its initial state and exactly `rest` is left.
+The measure behind it (`pollNext_mid_budget`): the number of frame bytes still in flight — every
+non-`Pending` inner `poll_read` decreases it, a `Pending` leaves it unchanged, and while it is
+positive the reader is inside a frame (`Mid`) and cannot fail. -/
+theorem framing_progress (fs : List Bytes) (hfs : ∀ f ∈ fs, f.length ≤ maxFrameSize) (rest : Bytes)
+    (eof : Bool) (fuel : Nat) (sched : List Nat) (hfuel : sched.length ≤ fuel)
+    (hdeliver : (wire fs).length ≤ (sched.filter (· ≠ 0)).length) :
+    (readN fs.length fuel Reader.fresh ⟨wire fs ++ rest, eof⟩ sched).1 = fs.map PollNext.frame ∧
+    (readN fs.length fuel Reader.fresh ⟨wire fs ++ rest, eof⟩ sched).2.1 = Reader.fresh ∧
+    (readN fs.length fuel Reader.fresh ⟨wire fs ++ rest, eof⟩ sched).2.2.1 = ⟨rest, eof⟩ := by
+  have hout : (readN fs.length fuel Reader.fresh ⟨wire fs ++ rest, eof⟩ sched).1 = fs.map PollNext.frame := by
+    cases fs with
+    | nil => simp [readN]
+    | cons f fs =>
+      have hlen : ∀ g ∈ f :: fs, g.length < 16384 := by
+        intro g hg; have := hfs g hg; rw [maxFrameSize_eq] at this; omega
+      exact readN_progress rest fuel f fs Reader.fresh ⟨wire (f :: fs) ++ rest, eof⟩ sched hlen
+        (by rw [wire_cons, List.append_assoc]; exact mid_fresh _ _ _) hfuel
+        (by simp only [List.length_append, nz] at hdeliver ⊢; omega)
+  obtain ⟨k, hk, hpre, hfin⟩ := framing_transparent fs hfs rest eof fuel sched
+  have hkl : k = fs.length := by
+    have := congrArg List.length (hpre.symm.trans hout)
+    simp at this; omega
+  exact ⟨hout, hfin hkl⟩
+
+/-- Non-vacuity: the 5 bytes of two frames, six `Pending`s and five 1-byte deliveries. With one
+delivery fewer the second frame is not returned (the bound is tight). -/
+example :
+    (wire [[1, 2, 3], []]).length = 5 ∧ ([1, 0, 1, 0, 0, 1, 0, 0, 1, 0, 1].filter (· ≠ 0)).length = 5 ∧
+    (readN 2 11 Reader.fresh ⟨wire [[1, 2, 3], []] ++ [9, 9], false⟩ [1, 0, 1, 0, 0, 1, 0, 0, 1, 0, 1]).1 =
+      [.frame [1, 2, 3], .frame []] ∧
+    (readN 2 11 Reader.fresh ⟨wire [[1, 2, 3], []] ++ [9, 9], false⟩ [1, 0, 1, 0, 0, 1, 0, 0, 1, 0]).1 =
+      [.frame [1, 2, 3]] := by
+  refine ⟨by simp [wire, frameBytes, uviEncode_lt], by decide, ?_, ?_⟩ <;>
+    (rw [show wire [[1, 2, 3], []] = [3, 1, 2, 3, 0] by simp [wire, frameBytes, uviEncode_lt]]; decide)
+
 /-- **The writer loses nothing.** For every schedule, the bytes on the wire followed by the bytes
 still buffered are the bytes before followed by the buffer before; `Ready` means the buffer is
 empty (the assertion of `into_inner` on the write buffer holds after a flush). -/
@@ -184,45 +224,100 @@ theorem into_inner_safe (v : Version) (ps ls : List Bytes) (junk : Option PErr)
 example : (Dialer.onRecv ⟨.v1, [], .awaitProtocol [47, 97] true, [.header]⟩ (.msg (.protocol [47, 97]))).st.state =
     .failed .panic := by decide
 
-/-- **Message-based variant, safety half (partial).** Full statement (not proved, see the report):
-for all valid, frame-sized `main :: fallbacks`, all `sup` and every grouping `split`,
-`wPair main fallbacks sup split` is `⟨succeeded p, accepted p⟩` for the first `p ∈ main :: fallbacks`
-with `p ∈ sup`, and `⟨failed, none⟩` when there is none. Proved here, for ALL payloads (well-formed or
-not), all groupings and all states: the listener only ever accepts a name it supports, and the
+/-- **Message-based variant, safety for arbitrary payloads.** For ALL payloads (well-formed or not),
+all states and whatever the peer is: the listener only ever accepts a name it supports, and the
 dialer only ever reports success for the name it is currently proposing. -/
-theorem webrtc_agree_partial (sup : List Bytes) (payload : Bytes) (hr : Bool) (d : WDialer) :
+theorem webrtc_safe (sup : List Bytes) (payload : Bytes) (hr : Bool) (d : WDialer) :
     (∀ p m, wListen sup payload hr = .ok (.accepted p m) → p ∈ sup) ∧
     (∀ q, (wRegister d payload).2 = .ok (.succeeded q) → q = d.protocol) :=
   ⟨fun p m h => wListen_accepted sup payload hr p m h,
    fun q h => wRegisterLoop_succeeded _ d payload q h⟩
 
-/-- Non-vacuity, on the composed pair: `/a` with fallbacks `/b`, `/c` against a listener supporting
-`/c`, `/b` agrees on `/b` for every grouping of the first payload and of the first response; disjoint
-names fail on the dialer side and the listener never accepts. -/
-example :
-    (∀ split ∈ [0, 1, 2, 3], wPair [47, 97] [[47, 98], [47, 99]] [[47, 99], [47, 98]] split =
-      ⟨.succeeded [47, 98], some (.ok [47, 98])⟩) ∧
-    wPair [47, 97] [[47, 98]] [[47, 99]] 3 = ⟨.failed, none⟩ ∧
-    wListen [[47, 98]] [19, 47, 109, 117, 108, 116, 105, 115, 116, 114, 101, 97, 109, 47, 49, 46, 48, 46, 48, 10,
-      3, 47, 98, 10] false = .ok (.accepted [47, 98] [19, 47, 109, 117, 108, 116, 105, 115, 116, 114, 101, 97, 109,
-      47, 49, 46, 48, 46, 48, 10, 3, 47, 98, 10]) := by
+example : wListen [[47, 98]] (wHdr ++ wFrame (.protocol [47, 98])) false =
+      .ok (.accepted [47, 98] (wHdr ++ wFrame (.protocol [47, 98]))) ∧
+    (wRegister ⟨[47, 98], [], .waitingResponse⟩ (wHdr ++ wFrame (.protocol [47, 98]))).2 = .ok (.succeeded [47, 98]) := by
   decide
 
-/-- **A fallback name is reported as the main protocol.** If the negotiated name is a fallback
-name of `main`, the substream is reported for `main` with `fallback = Some(negotiated)`; a main name
-is reported as itself with `fallback = None`. -/
-theorem fallback_reported_as_main (protocols : List Bytes) (fallbackNames : List (Bytes × Bytes))
-    (negotiated : Bytes) :
-    (∀ main, fallbackNames.lookup negotiated = some main → main ∈ protocols →
-      reportSubstreamOpen protocols fallbackNames negotiated = some (main, some negotiated)) ∧
-    (fallbackNames.lookup negotiated = none → negotiated ∈ protocols →
-      reportSubstreamOpen protocols fallbackNames negotiated = some (negotiated, none)) := by
-  constructor
-  · intro main h hm; simp [reportSubstreamOpen, h, hm]
-  · intro h hm; simp [reportSubstreamOpen, h, hm]
+/-- **Message-based variant: agreement for every grouping.** `WebRtcDialerState::{propose,
+propose_next_fallback, register_response}` against `webrtc_listener_negotiate`, composed as
+`transport/webrtc/connection.rs` composes them (`wPair`). For every main name that is valid and at
+most `MAX_FRAME_SIZE − 23` bytes long (it travels behind the 20-byte header frame), every list of
+valid fallback names of at most `MAX_FRAME_SIZE − 3` bytes, every listener list `sup` and EVERY
+grouping of the messages into payloads that can occur (`split` bit 0: header and first proposal
+travel as one payload or as two; bit 1: the listener's header + answer travel as one payload or as
+two; every later message is alone in flight), the pair ends with the dialer reporting `Succeeded(p)`
+and the listener having accepted `p`, where `p` is the first name of `main :: fallbacks` that the
+listener supports, or — when there is none — with the dialer failing (`propose_next_fallback`
+returned `None`) and the listener never having accepted anything.
 
-example : reportSubstreamOpen [[47, 109]] [([47, 102], [47, 109])] [47, 102] = some ([47, 109], some [47, 102]) ∧
-    reportSubstreamOpen [[47, 109]] [([47, 102], [47, 109])] [47, 109] = some ([47, 109], none) := by decide
+The order in which the code tries the names is `main` first, then the fallbacks **in the order
+given to `propose`** (`propose` reverses the vector, `propose_next_fallback` pops from its end). -/
+theorem webrtc_agree (main : Bytes) (fallbacks sup : List Bytes) (split : Nat)
+    (hmain : WProposableMain main) (hfb : ∀ f ∈ fallbacks, WProposable f) :
+    wPair main fallbacks sup split =
+      match firstCommon (main :: fallbacks) sup with
+      | some p => ⟨.succeeded p, some (.ok p)⟩
+      | none => ⟨.failed, none⟩ := by
+  rw [wPair_agree main fallbacks sup split hmain hfb]
+  cases firstCommon (main :: fallbacks) sup <;> rfl
+
+/-- Non-vacuity: `/a` with fallbacks `/b`, `/c` against a listener supporting `/c`, `/b` agrees on
+`/b` (the dialer's order decides, not the listener's) for every grouping; disjoint names fail on the
+dialer side and the listener never accepts. The length bound is exact: one byte more and `propose`
+itself fails. -/
+example :
+    WProposableMain [47, 97] ∧ (∀ f ∈ [[47, 98], [47, 99]], WProposable f) ∧
+    (∀ split ∈ [0, 1, 2, 3], wPair [47, 97] [[47, 98], [47, 99]] [[47, 99], [47, 98]] split =
+      ⟨.succeeded [47, 98], some (.ok [47, 98])⟩) ∧
+    firstCommon [[47, 97], [47, 98], [47, 99]] [[47, 99], [47, 98]] = some [47, 98] ∧
+    wPair [47, 97] [[47, 98]] [[47, 99]] 3 = ⟨.failed, none⟩ ∧
+    (∀ p : Bytes, maxFrameSize < p.length + 23 → webrtcEncode (.protocol p) true = none) := by
+  refine ⟨by decide, by decide, by decide, by decide, by decide, webrtcEncode_proto_true_too_long⟩
+
+/-- **A fallback name is reported as the main protocol.** `installed` are the protocols given to
+`ProtocolSet::new` as `(main name, fallback names)`. If the negotiated name is a fallback name of
+`main` — and of no other installed protocol, otherwise hash-map iteration order decides —
+`report_substream_open` reports the substream to `main` with `fallback = Some(negotiated)`. A name
+that is no fallback name is reported as itself with `fallback = None` if it is installed, and
+refused (`ProtocolNotSupported`) if not. -/
+theorem fallback_reported_as_main (installed : List (Bytes × List Bytes)) (negotiated : Bytes)
+    (hu : ∀ e1 ∈ installed, ∀ e2 ∈ installed, negotiated ∈ e1.2 → negotiated ∈ e2.2 → e1.1 = e2.1) :
+    (∀ e ∈ installed, negotiated ∈ e.2 → reportInstalled installed negotiated = some (e.1, some negotiated)) ∧
+    ((∀ e ∈ installed, negotiated ∉ e.2) →
+      (negotiated ∈ installed.map (·.1) → reportInstalled installed negotiated = some (negotiated, none)) ∧
+      (negotiated ∉ installed.map (·.1) → reportInstalled installed negotiated = none)) := by
+  constructor
+  · intro e he hmem
+    have hl := lookup_build installed negotiated
+    cases hf : installed.find? (fun e => negotiated ∈ e.2) with
+    | none =>
+      have := List.find?_eq_none.mp hf e he
+      simp [hmem] at this
+    | some e' =>
+      have he' := List.mem_of_find?_eq_some hf
+      have hm' : negotiated ∈ e'.2 := by simpa using List.find?_some hf
+      have heq : e'.1 = e.1 := hu e' he' e he hm' hmem
+      rw [hf] at hl
+      have hin : e.1 ∈ installed.map (·.1) := List.mem_map.mpr ⟨e, he, rfl⟩
+      simp only [Option.map_some, heq] at hl
+      simp only [reportInstalled, reportSubstreamOpen, hl, hin, if_true]
+  · intro hno
+    have hl := lookup_build installed negotiated
+    have hf : installed.find? (fun e => negotiated ∈ e.2) = none :=
+      List.find?_eq_none.mpr (fun e he => by simpa using hno e he)
+    rw [hf] at hl
+    simp only [Option.map_none] at hl
+    constructor
+    · intro hin; simp only [reportInstalled, reportSubstreamOpen, hl, hin, if_true]
+    · intro hin; simp only [reportInstalled, reportSubstreamOpen, hl, hin, if_false]
+
+/-- Non-vacuity: `/m` with fallbacks `/f`, `/g` and `/x` without any. -/
+example :
+    reportInstalled [([47, 109], [[47, 102], [47, 103]]), ([47, 120], [])] [47, 103] = some ([47, 109], some [47, 103]) ∧
+    reportInstalled [([47, 109], [[47, 102], [47, 103]]), ([47, 120], [])] [47, 109] = some ([47, 109], none) ∧
+    reportInstalled [([47, 109], [[47, 102], [47, 103]]), ([47, 120], [])] [47, 120] = some ([47, 120], none) ∧
+    reportInstalled [([47, 109], [[47, 102], [47, 103]]), ([47, 120], [])] [47, 122] = none ∧
+    unambiguousB [([47, 109], [[47, 102], [47, 103]]), ([47, 120], [])] = true := by decide
 
 end Litep2pVerif.Props.C03
 
@@ -232,6 +327,8 @@ open Litep2pVerif.Props.C03 in
 #print axioms varint_roundtrip
 open Litep2pVerif.Props.C03 in
 #print axioms framing_transparent
+open Litep2pVerif.Props.C03 in
+#print axioms framing_progress
 open Litep2pVerif.Props.C03 in
 #print axioms framing_writer_exact
 open Litep2pVerif.Props.C03 in
@@ -243,6 +340,8 @@ open Litep2pVerif.Props.C03 in
 open Litep2pVerif.Props.C03 in
 #print axioms into_inner_safe
 open Litep2pVerif.Props.C03 in
-#print axioms webrtc_agree_partial
+#print axioms webrtc_safe
+open Litep2pVerif.Props.C03 in
+#print axioms webrtc_agree
 open Litep2pVerif.Props.C03 in
 #print axioms fallback_reported_as_main
